@@ -94,7 +94,7 @@ def main():
         hooks=dict(guard="verif-hooks (cargo feature of iroh-docs)",
             enable="the harness depends on iroh-docs { path = \"/repo\", features = [\"verif-hooks\"] }",
             baseline_off_cmd="cd /repo && (cargo nextest run --workspace --no-fail-fast --tool-config-file pb:/w/lib/nextest.toml --profile pb --test-threads 8 --offline || cargo test --workspace --no-fail-fast --offline)",
-            source_commits=[hooks_commit, hooks_commit2, "0ea3e6c", "0601798"], add_only=True),
+            source_commits=[hooks_commit, hooks_commit2, "0ea3e6c", "0601798", "2bf690e"], add_only=True),
         engines=[dict(name="dv", path="/verif/harness", serves_properties=[c['property_id'] for c in checks],
             kind_free_text="Rust binary: proptest 1.11 strategies driven through TestRunner with fixed seeds, 16 worker processes, JSON replay files, reference model + differential oracles")],
         checks=checks,
